@@ -189,11 +189,16 @@ def judge(fn, cached=False, skip_own=False, module_tree=None, class_node=None,
         glob = shared_glob
         helpers = {}
         if class_node is not None:
-            # private helper methods of the routine's class: self._x(...)
-            for st in class_node.body:
-                if isinstance(st, ast.FunctionDef) and st.name.startswith("_") \
-                        and not st.name.startswith("__"):
-                    helpers[st.name] = st
+            # private helper methods of the routine's class and of its bases
+            # (base classes first, so that an override wins): self._x(...)
+            nodes = class_node if isinstance(class_node, (list, tuple)) \
+                else [class_node]
+            for cn in nodes:
+                for st in cn.body:
+                    if isinstance(st, ast.FunctionDef) and \
+                            st.name.startswith("_") and \
+                            not st.name.startswith("__"):
+                        helpers[st.name] = st
         return Interp(calls={
             "getattr": getattr_, "type": type_, "isinstance": isinstance_,
             "is_numpy_array": lambda it, n_, a, k: False,
